@@ -21,7 +21,7 @@ RULE = ("one evaluation = one seeded run: a client seeds the shared RNG, foreign
 def gen_trace(seed, world, tier):
     R = sub_rng(seed, "C19")
     n = R.randint(1, 6 if tier == "quick" else 8)
-    fam = R.choice(["herm_pos", "herm_neg", "herm_mixed", "herm_mixed", "general", "general_int"])
+    fam = R.choice(["herm_pos", "herm_neg", "herm_mixed", "herm_mixed", "general", "general_int", "general_zero_col"])
     scale = R.choice([0, 0, 0, 0, -6, 6, -3, 3, -12, 12, -9, -17, 17, -15])
     # reducible Hermitian matrices (diagonal / block diagonal, dominant eigenvector away from
     # e_1): a start vector that is not random in every component never reaches it
@@ -56,6 +56,10 @@ def gen_trace(seed, world, tier):
             A = {"gen": "herm", "n": n, "lam": lam, "seed": s}
     elif fam == "general":
         A = {"gen": "gauss", "m": n, "n": n, "seed": s}
+    elif fam == "general_zero_col":
+        # singular input with a zero column (A v may lose components); boundedness clauses only
+        A = {"gen": "mul", "A": {"gen": "gauss", "m": n, "n": n, "seed": s},
+             "x": {"gen": "diagq", "vals": [0.0 if j == s % n else 1.0 for j in range(n)]}}
     else:
         A = {"gen": "int", "m": n, "n": n, "seed": s}
     noisy = fam.startswith("herm") and R.random() < 0.15
@@ -65,12 +69,12 @@ def gen_trace(seed, world, tier):
     if scale:
         A = {"gen": "scale", "of": A, "c": 10.0 ** scale}
     routine = R.choice(["pi", "pi", "pi", "pinh"])
-    budget = R.choice([BIG, BIG, BIG, 1, 2, 7])
+    budget = R.choice([BIG, BIG, BIG, 1, 2, 7, 0])
     if routine == "pi":
         fn = "utils.power_iteration"
         kw = {"max_iterations": budget, "return_eigenvalue": R.random() < 0.85}
         if R.random() < 0.2:
-            kw["tol"] = R.choice([1e-8, 1e-12])
+            kw["tol"] = R.choice([1e-8, 1e-12, 0.0])
         if R.random() < 0.12:
             kw["verbose"] = True
     else:
